@@ -15,6 +15,10 @@ ASSUMPTIONS = [
     'instance pools capped at 2 (quick) / 3 (thorough) instances ever created per class; search to closure under the cap',
     'operations on deleted instances other than a repeated delete are outside the statement and not generated',
     'delete is always called with disconnect=True; reflexive associations have two distinct phrases',
+    'instance creation includes creation with referential values naming existing instances (unphrased, non-reflexive '
+    'associations; phrased ones are C03): when every implied relate is admissible the call must succeed and link all of them; a '
+    'rejected creation may leave the new instance linked to any admissible part of what was asked for or leave nothing, and the '
+    'invariants of the statement must hold afterwards (the reference adopts the observed one of those states)',
 ]
 UNKNOWN_REL = 99
 UNKNOWN_PHRASE = 'zz'
@@ -40,10 +44,82 @@ class LinkModel(explorer.Model):
         w.handles = []
         w.label = {}
         for op in hist:
+            if op[0] == 'newref':
+                self.newref(w, op)
+                continue
             self.run_impl(w, op)
             self.run_ref(w, op)
         w.obs = None
         return w
+
+    # -- creation with referential values -------------------------------------
+    def newref_targets(self, kind):
+        '''Associations (index) in which *kind* is the referring class; only unphrased, non-reflexive ones (which phrase
+        a creation call links across is the subject of C03).'''
+        return [ai for ai, a in enumerate(self.schema.assocs)
+                if a.src.upper() == kind.upper() and a.src.upper() != a.tgt.upper() and not a.sphrase and not a.tphrase]
+
+    def newref(self, w, op):
+        '''m.new(kind, <referential attributes> = <identifying values of the chosen instances>).  A creation call whose
+        relates are all admissible must succeed and link the new instance to every chosen instance.  One that is rejected
+        (MetaException) may have linked any admissible part of what was asked for, or have vanished altogether: the
+        statement only demands that the model stays symmetric with only live instances reachable.  The reference adopts
+        whichever of those states is observed.  -> (outcome, matched candidate or None, observation)'''
+        import copy
+        import xtuml
+        _, kind, targets = op
+        kwargs = {}
+        for ai, y in targets:
+            a = self.schema.assocs[ai]
+            for sk, tk in zip(a.skeys, a.tkeys):
+                kwargs[sk] = getattr(w.handles[y], tk)
+        n_before = dict((k, len(list(w.m.select_many(k)))) for k in self.schema.kinds())
+        try:
+            inst = w.m.new(kind, **kwargs)
+            got = 'created'
+        except xtuml.MetaException as e:
+            inst = None
+            got = type(e).__name__
+        if inst is None:
+            # a half-built instance may have stayed in the pool: give it the next label
+            for cand in w.m.select_many(kind):
+                if cand not in w.label:
+                    inst = cand
+        if inst is not None:
+            w.label[inst] = len(w.handles)
+        obs = self.observe(w)
+        n_ids = sum(1 for _, t in self.schema.attrs(kind) if t.upper() == 'UNIQUE_ID')
+        cands = []
+        for mask in range(1 << len(targets)):
+            part = [t for i, t in enumerate(targets) if mask >> i & 1]
+            if got == 'created' and len(part) != len(targets):
+                continue
+            r = copy.deepcopy(w.ref)
+            idx = r.new(kind)
+            if all(r.relate(idx, y, self.schema.assocs[ai].rel, '') == 'True' for ai, y in part):
+                cands.append((part, r, True))
+        if got != 'created':
+            r = copy.deepcopy(w.ref)
+            r.next_id += len([1 for n, t in self.schema.attrs(kind) if t.upper() == 'UNIQUE_ID' and n not in self.schema.referentials(kind)])
+            cands.append(('vanished', r, False))
+        admissible_all = any(len(part) == len(targets) for part, _, _ in cands if part != 'vanished')
+        matched = None
+        for part, r, in_pool in cands:
+            if got != 'created' and part != 'vanished' and len(part) == len(targets):
+                continue
+            if in_pool != (inst is not None and inst in list(w.m.select_many(kind))):
+                continue
+            if relmodel.diff_obs(r.observe(), obs) is None:
+                matched = part
+                w.ref = r
+                break
+        if inst is not None and matched != 'vanished':
+            w.handles.append(inst)
+        elif inst is not None:
+            del w.label[inst]
+        if matched is None and inst is not None and len(w.handles) < len(w.ref.insts) + 1 and inst not in w.handles:
+            w.handles.append(inst)
+        return got, matched, obs, admissible_all, cands
 
     # -- the two sides -----------------------------------------------------
     def run_impl(self, w, op):
@@ -133,10 +209,21 @@ class LinkModel(explorer.Model):
         created = {}
         for i in ref.insts:
             created[i.kind] = created.get(i.kind, 0) + 1
+        live = [i.idx for i in ref.insts if i.alive]
         for k in self.schema.kinds():
             if created.get(k, 0) < self.cap:
                 ops.append(['new', k])
-        live = [i.idx for i in ref.insts if i.alive]
+                tas = self.newref_targets(k)
+                if tas:
+                    import itertools
+                    choices = []
+                    for ai in tas:
+                        tk = self.schema.assocs[ai].tgt.upper()
+                        choices.append([None] + [i for i in live if ref.insts[i].kind.upper() == tk])
+                    for combo in itertools.product(*choices):
+                        targets = [[ai, y] for ai, y in zip(tas, combo) if y is not None]
+                        if targets:
+                            ops.append(['newref', k, targets])
         rels = self.schema.rels()
         phrases = self.schema.phrases()
         for x in live:
@@ -164,8 +251,40 @@ class LinkModel(explorer.Model):
         return ops
 
     # -- transition + oracle -------------------------------------------------
+    def apply_newref(self, ctx, w, op, hist):
+        before = self.observe(w)
+        got, matched, after, admissible_all, cands = self.newref(w, op)
+        ctx.count('traces')
+        ctx.count('creations_with_referentials')
+        ctx.distinct('outcomes', (self.schema.name, 'newref', got, repr(matched)))
+        case = self.case(hist, op)
+
+        def bad(kind, msg, expected=None, observed=None):
+            ctx.violation('c02:newref:%s' % kind, case, 'schema %s, history %s, then %s: %s' % (self.schema.name, hist, op, msg),
+                          expected, observed, unit_test=unit_test(self, hist, op))
+        probs = relmodel.check_symmetry(self.schema, after)
+        if probs:
+            bad(probs[0].split(':', 1)[0], 'after the creation call (%s): %s' % (got, probs[0]), None, after)
+            return False
+        if got == 'created' and not admissible_all:
+            bad('outcome', 'the creation call succeeded although one of the instances it refers to already has its single partner')
+            return False
+        if got != 'created' and admissible_all:
+            bad('outcome', 'the creation call raised %s although every instance it refers to can take another partner' % got, 'created', got)
+            return False
+        if matched is None:
+            bad('state', 'after the creation call (%s) the model is none of the admissible states (new instance linked to an '
+                'admissible part of what was asked for, or no new instance at all): %s' %
+                (got, relmodel.diff_obs(cands[0][1].observe(), after) if cands else '?'), None, after)
+            return False
+        if got != 'created':
+            ctx.count('rejected_creations')
+        return True
+
     def apply(self, ctx, w, op, hist):
         name = op[0]
+        if name == 'newref':
+            return self.apply_newref(ctx, w, op, hist)
         before = self.observe(w)
         got = self.run_impl(w, op)
         exp = self.run_ref(w, op)
@@ -231,6 +350,12 @@ def unit_test(model, hist, op):
     def stmt(o, guard=False):
         if o[0] == 'new':
             return 'h.append(m.new(%r))' % o[1]
+        if o[0] == 'newref':
+            kw = []
+            for ai, y in o[2]:
+                a = model.schema.assocs[ai]
+                kw += ['%s=h[%d].%s' % (sk, y, tk) for sk, tk in zip(a.skeys, a.tkeys)]
+            return 'h.append(m.new(%r, %s))   # (on rejection: look for the half-built instance in the pool)' % (o[1], ', '.join(kw))
         if o[0] == 'delete':
             return 'xtuml.delete(h[%d])' % o[1]
         a = ['None' if o[1] is None else 'h[%d]' % o[1], 'None' if o[2] is None else 'h[%d]' % o[2],
@@ -261,12 +386,13 @@ CAPS = {
     'g_assoc_class': ({'A': 2, 'B': 2, 'C': 2}, {'A': 2, 'B': 2, 'C': 3}),
     'g2_reflexive_assoc_class': ({'A': 2, 'C': 2}, {'A': 3, 'C': 3}),
     'h_subsuper': ({'P': 2, 'S1': 2, 'S2': 2}, {'P': 3, 'S1': 2, 'S2': 2}),
+    'i_two_single_refs': ({'A': 2, 'B': 1, 'C': 2}, {'A': 2, 'B': 2, 'C': 3}),
 }
 
 
 def models(ctx):
     out = []
-    for schema in schemas.shapes():
+    for schema in schemas.shapes() + schemas.extra_shapes():
         caps = CAPS[schema.name][0 if ctx.quick else 1]
         out.append(CappedModel(schema, max(caps.values()), caps))
     return out
@@ -284,6 +410,7 @@ def run(ctx):
     ctx.require(total >= 200, 'too few states (%d)' % total)
     ctx.require(ctx.n('rejected_calls_compared') >= 1000, 'too few rejected calls compared')
     ctx.require(ctx.n('undo_checked') >= 100, 'too few relate/unrelate round trips')
+    ctx.require(ctx.n('rejected_creations') >= 20, 'too few rejected creation calls (%d)' % ctx.n('rejected_creations'))
     ctx.require(ctx.nd('outcomes') >= 30, 'too few distinct outcomes (%d)' % ctx.nd('outcomes'))
 
 
@@ -323,6 +450,7 @@ def coverage(ctx):
         distinct_outcomes=ctx.nd('outcomes'),
         rejected_calls_compared=ctx.n('rejected_calls_compared'),
         relate_unrelate_round_trips=ctx.n('undo_checked'),
+        creations_with_referential_values=ctx.n('creations_with_referentials'), rejected_creations=ctx.n('rejected_creations'),
         rule='every enabled operation (new / relate / unrelate / delete over every ordered pair of live instances, every '
              'relationship number incl. an unknown one, every phrase incl. none/unknown, both spellings of the number, None '
              'arguments, repeated delete) is executed in every reachable canonical state; distinct_nontrivial counts distinct '
